@@ -46,6 +46,8 @@ CFG = {
         "Swat4.C12.lost_if_dies",
         "Swat4.C12.witnessOne_init",
         "Swat4.C12.lost_if_dies_done",
+        "Swat4.C12.facts_item_id_uses",
+        "Swat4.C12.facts_pop_atomic",
     ],
     "shards": (4, 16),
     "nontrivial": _nontrivial,
